@@ -13,6 +13,7 @@ import (
 	"verif/harness/document"
 	"verif/harness/matching"
 	"verif/harness/mergedocs"
+	"verif/harness/names"
 	"verif/harness/nodeheap"
 	"verif/harness/publish"
 	"verif/harness/query"
@@ -41,6 +42,8 @@ func main() {
 		err = matching.Main(os.Args[2:])
 	case "mergedocs":
 		err = mergedocs.Main(os.Args[2:])
+	case "names":
+		err = names.Main(os.Args[2:])
 	case "nodeheap":
 		err = nodeheap.Main(os.Args[2:])
 	case "publish":
